@@ -58,6 +58,23 @@ type N struct {
 	L  interface{}
 	BK  *Book
 	ROW *[2]Cell
+	ON  *ON
+	ONA *ONA
+}
+
+// N, Book, Header, Cell are "simple" structs for the codec (kStructSimple). ON and ONA have an omitempty field,
+// so they go through kStruct: ON as a map or, with StructToArray, as an array; ONA always as an array (toarray).
+type ON struct {
+	Next *ON
+	Up   *N
+	Tag  string `codec:"tag,omitempty"`
+}
+
+type ONA struct {
+	_struct bool `codec:",toarray"`
+	Next    *ONA
+	Up      *N
+	Tag     string `codec:"tag,omitempty"`
 }
 
 // interior pointers: a *Header can point at a Book's embedded FIRST field and a *Cell at element 0 of a [2]Cell:
@@ -131,6 +148,8 @@ type NodeDesc struct {
 	BookUp, BookNext int
 	Row              string // "", peer10: ROW[1].Peer = &ROW[0] (acyclic); self0: also ROW[0].Peer = &ROW[0] (a real cycle)
 	RowUp            int
+	On, OnA          string // "", chain: x1 -> x2 -> nil; cycle: x1 -> x2 -> x1; self: x1 -> x1  (ON / ONA values hung on the node)
+	OnUp, OnAUp      int    // x2.Up (x1.Up for self)
 	PSNil, PMNil bool   // PS / PM point to a NIL slice / map (pointer to a nil collection)
 	L            string // "", func, sendchan, recvchan, complex, complexok, raw, oddmbs, evenmbs, failm, panicm, failselfer, unsafeptr
 	LPtr         bool   // leaf behind a pointer (failm/panicm/failselfer)
@@ -399,6 +418,56 @@ func (b *built) fill(d *GraphDesc) {
 			b.cells[c0] = cell0
 			b.cells[cr] = "VArr " + coqList([]string{cell0, cell1})
 			f = append(f, fmt.Sprintf("VPtr %d", cr))
+		} else {
+			f = append(f, "VNil NPtr")
+		}
+		// non-simple structs (kStruct), as map or as array
+		onTerms := func(shape string, up int) (t1, t2 string, x1, x2 int) {
+			x1 = alloc("")
+			x2 = alloc("")
+			tag := func(k int) string { return "VScalar" }
+			switch shape {
+			case "chain":
+				b.cells[x1] = "VStruct " + coqList([]string{fmt.Sprintf("VPtr %d", x2), "VNil NPtr", tag(1)})
+				b.cells[x2] = "VStruct " + coqList([]string{"VNil NPtr", ptrTerm(up), tag(2)})
+			case "cycle":
+				b.cells[x1] = "VStruct " + coqList([]string{fmt.Sprintf("VPtr %d", x2), "VNil NPtr", tag(1)})
+				b.cells[x2] = "VStruct " + coqList([]string{fmt.Sprintf("VPtr %d", x1), ptrTerm(up), tag(2)})
+			default: // self
+				b.cells[x1] = "VStruct " + coqList([]string{fmt.Sprintf("VPtr %d", x1), ptrTerm(up), tag(1)})
+				b.cells[x2] = "VNil NPtr"
+			}
+			return
+		}
+		if nd.On != "" {
+			_, _, x1, _ := onTerms(nd.On, nd.OnUp)
+			a, c := &ON{Tag: "t1"}, &ON{}
+			switch nd.On {
+			case "chain":
+				a.Next, c.Up = c, node(nd.OnUp)
+			case "cycle":
+				a.Next, c.Next, c.Up = c, a, node(nd.OnUp)
+			default:
+				a.Next, a.Up = a, node(nd.OnUp)
+			}
+			n.ON = a
+			f = append(f, fmt.Sprintf("VPtr %d", x1))
+		} else {
+			f = append(f, "VNil NPtr")
+		}
+		if nd.OnA != "" {
+			_, _, x1, _ := onTerms(nd.OnA, nd.OnAUp)
+			a, c := &ONA{Tag: "t1"}, &ONA{}
+			switch nd.OnA {
+			case "chain":
+				a.Next, c.Up = c, node(nd.OnAUp)
+			case "cycle":
+				a.Next, c.Next, c.Up = c, a, node(nd.OnAUp)
+			default:
+				a.Next, a.Up = a, node(nd.OnAUp)
+			}
+			n.ONA = a
+			f = append(f, fmt.Sprintf("VPtr %d", x1))
 		} else {
 			f = append(f, "VNil NPtr")
 		}
@@ -688,6 +757,19 @@ func randGraph(r *vh.Rng, m genMode, leaf string, leafPtr bool) *GraphDesc {
 	for i := 0; i < k; i++ {
 		nd := &d.Nodes[i]
 		nd.BookUp, nd.BookNext, nd.RowUp = -1, -1, -1
+		nd.OnUp, nd.OnAUp = -1, -1
+		pickOn := func() string {
+			if !m.dag && r.Chance(1, 2) {
+				return []string{"cycle", "self"}[r.Intn(2)]
+			}
+			return "chain"
+		}
+		if r.Chance(m.density, 14) {
+			nd.On, nd.OnUp = pickOn(), randTarget(r, i, k, m, false)
+		}
+		if r.Chance(m.density, 14) {
+			nd.OnA, nd.OnAUp = pickOn(), randTarget(r, i, k, m, false)
+		}
 		if r.Chance(m.density, 16) {
 			nd.Book = "plain"
 			if !m.dag && r.Chance(1, 3) {
@@ -782,6 +864,12 @@ func succ(nd *NodeDesc) []int {
 	if nd.Book != "" { // the Header is written twice: flattened into the Book and through Ref
 		out = append(out, nd.BookUp, nd.BookUp, nd.BookNext)
 	}
+	if nd.On != "" {
+		out = append(out, nd.OnUp)
+	}
+	if nd.OnA != "" {
+		out = append(out, nd.OnAUp)
+	}
 	if nd.Row != "" { // element 0 is written twice: in the array and through ROW[1].Peer
 		out = append(out, nd.RowUp, nd.RowUp)
 	}
@@ -818,6 +906,10 @@ func reachable(d *GraphDesc) (seen []bool, cyc bool) {
 		cyc = true
 	}
 	for i := range d.Nodes {
+		on, ona := d.Nodes[i].On, d.Nodes[i].OnA
+		if seen[i] && (on == "cycle" || on == "self" || ona == "cycle" || ona == "self") {
+			cyc = true
+		}
 		if seen[i] && (d.Nodes[i].Book == "cyc" || d.Nodes[i].Row == "self0") {
 			cyc = true
 		}
@@ -915,6 +1007,13 @@ func repaired(d *GraphDesc) *GraphDesc {
 		nd.S, nd.M, nd.PS, nd.PM = fixl(i, od.S), fixl(i, od.M), fixl(i, od.PS), fixl(i, od.PM)
 		nd.P, nd.PP, nd.EP = fix(i, nd.P), fix(i, nd.PP), fix(i, nd.EP)
 		nd.BookUp, nd.BookNext, nd.RowUp = fix(i, nd.BookUp), fix(i, nd.BookNext), fix(i, nd.RowUp)
+		nd.OnUp, nd.OnAUp = fix(i, nd.OnUp), fix(i, nd.OnAUp)
+		if nd.On != "" {
+			nd.On = "chain"
+		}
+		if nd.OnA != "" {
+			nd.OnA = "chain"
+		}
 		if nd.Book == "cyc" {
 			nd.Book = "plain"
 		}
@@ -1300,7 +1399,7 @@ func main() {
 		}
 	}
 	r := vh.NewRng(vh.SeedFromEnv())
-	sum := vh.NewSummary("graph: random adjacency over node type N (*N, **N, []*N, map[string]*N, interface{} holding ptr/pp/slice/map/[]interface{}/map[string]interface{}, embedded struct, *[]*N, *map[string]*N, [2]*N, *Book whose Ref points at its embedded first field, *[2]Cell whose element 1 points at element 0: same address, other type) x {dag, arbitrary} x CheckCircularRef x root kind x 5 formats, ops Encode/Encode/repair+Reset/Encode; leaves: every unrepresentable kind (and its representable twin) at a random node, optionally behind a pointer; child: cyclic without the option and cycles through map/slice/*interface{}/type P *P only, in a child process; distinct by (stream, cyclic, option, leaf, root kind, nodes, outcome)")
+	sum := vh.NewSummary("graph: random adjacency over node type N (*N, **N, []*N, map[string]*N, interface{} holding ptr/pp/slice/map/[]interface{}/map[string]interface{}, embedded struct, *[]*N, *map[string]*N, [2]*N, *Book whose Ref points at its embedded first field, *[2]Cell whose element 1 points at element 0: same address, other type; *ON / *ONA: non-simple structs with an omitempty field coded by kStruct as map, as array under StructToArray, and as array by the toarray tag) x {dag, arbitrary} x CheckCircularRef x root kind x 5 formats, ops Encode/Encode/repair+Reset/Encode; leaves: every unrepresentable kind (and its representable twin) at a random node, optionally behind a pointer; child: cyclic without the option and cycles through map/slice/*interface{}/type P *P only, in a child process; distinct by (stream, cyclic, option, leaf, root kind, nodes, outcome)")
 	cv := vh.NewCases(*cases, "From Coq Require Import List NArith.\nFrom Verif Require Import Base.Outcome C20.Model C20.Corr.\nImport ListNotations.", "case", "mismatches", 40)
 	if *prefail != "" {
 		if bs, err := os.ReadFile(*prefail); err == nil {
